@@ -42,6 +42,7 @@ func extractParseOpts(e *extractor) {
 					}
 					if n == s.nth {
 						mode, multi, tp, upd, conv := 0, false, false, false, false
+						ctxExpr := ""
 						okAll := true
 						for _, el := range cl.Elts {
 							kv, ok := el.(*ast.KeyValueExpr)
@@ -82,6 +83,12 @@ func extractParseOpts(e *extractor) {
 								}
 							case "UpdateParam":
 								upd = true
+							case "ContextMatch":
+								if se, ok := kv.Value.(*ast.SelectorExpr); ok {
+									if id, ok := se.X.(*ast.Ident); ok {
+										ctxExpr = id.Name + "." + se.Sel.Name
+									}
+								}
 							case "Converter":
 								if id, ok := kv.Value.(*ast.Ident); !ok || id.Name != "nil" {
 									conv = true
@@ -90,6 +97,7 @@ func extractParseOpts(e *extractor) {
 						}
 						if okAll {
 							fmt.Fprintf(&e.out, "Definition %s : N * bool * bool * bool * bool := (%d, %s, %s, %s, %s).\n", s.coq, mode, coqBool(multi), coqBool(tp), coqBool(upd), coqBool(conv))
+							fmt.Fprintf(&e.out, "Definition %s_ctx : rstr := %s. (* ContextMatch: %s *)\n", s.coq, runes(ctxExpr), ctxExpr)
 							found = true
 						}
 					}
